@@ -14,11 +14,11 @@ trap 'git -C /repo checkout -- . ; find /verif/replays -name "*.py" -delete' EXI
 tests=$(timeout 900 /venv/bin/python -m pytest -q -p no:cacheprovider 2>&1 | tail -1)
 demo_mut=$(PYTHONPATH=/repo/lib /venv/bin/python $src/$lab.demo.py >/dev/null 2>&1; echo $?)
 cd /verif
-./check $id --tier $tier "$@" > /tmp/seedtest_$id_$lab.log 2>&1
+./check $id --tier $tier "$@" > /tmp/seedtest_${id}_${lab}.log 2>&1
 rc=$?
-viol=$(grep -c '^VIOLATION' /tmp/seedtest_$id_$lab.log)
-first=$(grep -m1 'violated in' /tmp/seedtest_$id_$lab.log)
-herr=$(grep -m1 '^HARNESS-ERROR' /tmp/seedtest_$id_$lab.log | cut -c1-300)
+viol=$(grep -c '^VIOLATION' /tmp/seedtest_${id}_${lab}.log)
+first=$(grep -m1 'violated in' /tmp/seedtest_${id}_${lab}.log)
+herr=$(grep -m1 '^HARNESS-ERROR' /tmp/seedtest_${id}_${lab}.log | cut -c1-300)
 echo "$id-$lab tests=[$tests] demo_clean=$demo_clean demo_mutated=$demo_mut check_rc=$rc violations=$viol $first $herr"
 mkdir -p $dst
 cp $src/$lab.patch.diff $dst/patch.diff; cp $src/$lab.demo.py $dst/demo.py; cp $src/$lab.notes.md $dst/notes.md 2>/dev/null
